@@ -852,8 +852,31 @@ class CallMixin(object):
             return o
         if dotted in ("re.match", "re.fullmatch", "re.search", "re.split", "re.findall") and len(args) >= 2 and isinstance(args[0], Const) and isinstance(args[0].v, str):
             o = Opaque("regex:" + args[0].v)
-            o.re_compiled = _re.compile(args[0].v)
-            return self.regex_call(st, o, dotted[3:], list(args[1:]), kwargs, node, module)
+            rest = list(args[1:])
+            fl = 0
+            fv = kwargs.get("flags") if kwargs else None
+            if fv is None and len(rest) == 2 and dotted != "re.split":
+                fv = rest.pop()
+            if fv is not None:
+                # re.I / re.IGNORECASE / combinations with |
+                names = []
+                if isinstance(fv, ExtVal) and fv.dotted.startswith("re."):
+                    names = [fv.dotted[3:]]
+                elif isinstance(fv, Const) and isinstance(fv.v, int):
+                    fl = fv.v
+                else:
+                    raise AnalysisError("E5.regex", "regex flags are not modelled here", node, module)
+                for nm in names:
+                    if not hasattr(_re, nm):
+                        raise AnalysisError("E5.regex", "unknown regex flag %s" % nm, node, module)
+                    fl |= int(getattr(_re, nm))
+                kwargs = dict((k, v) for k, v in (kwargs or {}).items() if k != "flags")
+            try:
+                o.re_compiled = _re.compile(args[0].v, fl)
+            except _re.error as e:
+                self.hazard(st, "re.error", node, module, TRUE, "invalid pattern: %s" % e)
+                raise Dead()
+            return self.regex_call(st, o, dotted[3:], rest, kwargs, node, module)
         if dotted == "re.sub" and len(args) >= 3 and not kwargs and all(isinstance(a, Const) and isinstance(a.v, str) for a in args[:2]):
             # re.sub(pattern, replacement, string[, count]) with constant pattern and replacement
             o = Opaque("regex:" + args[0].v)
